@@ -213,3 +213,70 @@ Proof.
   intros l. unfold combine_all. rewrite combine_all_acc. cbn. repeat split.
   rewrite fold_and_spec. cbn. unfold fold_fail_pass_skip. reflexivity.
 Qed.
+
+(* ---- C07 ---- *)
+
+Lemma names_failed : forall children n,
+  all_rule_records children ->
+  (In n (rule_names_with FAIL children) <-> In (n, FAIL) (rule_entries children)).
+Proof.
+  intros children n H. unfold rule_names_with, rule_entries.
+  induction H as [|c children (m & s & msg & Hc) Hall IH]; cbn; [tauto|].
+  destruct c as [cc ch]. cbn in Hc. subst cc. cbn [rec_container].
+  destruct s; cbn; rewrite ?IH; split; intros H; try tauto;
+    try (destruct H as [H|H]; [inversion H; subst; auto|]; tauto);
+    try (destruct H as [H|H]; [subst; auto|]; tauto).
+Qed.
+
+(* the console summary table and the structured report list the same rules under the same verdicts *)
+Theorem summary_agrees_with_structured : forall st children fr n,
+  all_rule_records children -> NoDup (map fst (rule_entries children)) ->
+  simplified (Rec (KFileCheck st) children) = Some fr ->
+  (In n (summary_passed children) <-> In n (fr_compliant fr)) /\
+  (In n (summary_failed children) <-> In n (not_compliant_names (fr_not_compliant fr))) /\
+  (In n (summary_skipped children) <-> In n (fr_not_applicable fr)).
+Proof.
+  intros st children fr n Hall Hnd Hfr. inversion Hfr; subst; clear Hfr. cbn.
+  destruct (names_of_status children n Hall) as (H1 & H2 & H3).
+  pose proof (names_failed children n Hall) as H4.
+  split; [reflexivity|]. split; [now rewrite H3, H4|].
+  unfold summary_skipped. rewrite filter_In. split; [tauto|]. intros Hs. split; [assumption|].
+  apply negb_true_iff. apply orb_false_iff.
+  assert (U : forall s s', In (n, s) (rule_entries children) -> In (n, s') (rule_entries children) -> s = s').
+  { clear -Hnd. induction (rule_entries children) as [|[k v] l IH]; intros s s' A B; [destruct A|].
+    cbn in Hnd. inversion Hnd as [|? ? Hnot Hnd']; subst.
+    destruct A as [E|A], B as [E'|B].
+    - congruence.
+    - inversion E; subst. exfalso. apply Hnot. apply in_map_iff. exists (n, s'). auto.
+    - inversion E'; subst. exfalso. apply Hnot. apply in_map_iff. exists (n, s). auto.
+    - eauto. }
+  apply H2 in Hs. split.
+  - destruct (existsb (String.eqb n) (rule_names_with PASS children)) eqn:E; [|reflexivity].
+    apply existsb_exists in E as (x & Hx & Hxe). apply String.eqb_eq in Hxe. subst x.
+    apply H1 in Hx. specialize (U _ _ Hs Hx). discriminate.
+  - destruct (existsb (String.eqb n) (rule_names_with FAIL children)) eqn:E; [|reflexivity].
+    apply existsb_exists in E as (x & Hx & Hxe). apply String.eqb_eq in Hxe. subst x.
+    apply H4 in Hx. specialize (U _ _ Hs Hx). discriminate.
+Qed.
+
+Lemma creport_ind2 : forall (P : creport -> Prop),
+  (forall n m ch, Forall P ch -> P (RRule n m ch)) -> P RBlockEmpty ->
+  (forall ch, Forall P ch -> P (RDisj ch)) -> (forall l, P (RLeaf l)) -> forall r, P r.
+Proof.
+  intros P Hrule Hblock Hdisj Hleaf. fix IH 1. intros [n m ch| |ch|l].
+  - apply Hrule. induction ch as [|x xs IHl]; constructor; [apply IH|exact IHl].
+  - exact Hblock.
+  - apply Hdisj. induction ch as [|x xs IHl]; constructor; [apply IH|exact IHl].
+  - apply Hleaf.
+Qed.
+
+(* SARIF: one result per reported failing check *)
+Theorem sarif_one_result_per_check : forall r, message_count r = check_nodes r.
+Proof.
+  unfold check_nodes.
+  induction r as [n m ch IH| |ch IH|l] using creport_ind2; cbn; try reflexivity.
+  - rewrite go_leaves. induction IH as [|x xs Hx Hxs IHl]; [reflexivity|].
+    cbn. rewrite app_length, Hx, IHl. lia.
+  - rewrite go_leaves. induction IH as [|x xs Hx Hxs IHl]; [reflexivity|].
+    cbn. rewrite app_length, Hx, IHl. lia.
+Qed.
